@@ -1,298 +1,67 @@
 import SJ.Spec.Ieee
-import SJ.Proofs.LexIeee
+import SJ.Spec.Ieee32
+import SJ.Proofs.Ieee
+import SJ.Proofs.Ieee64
 import Mathlib.Tactic.Ring
 import Mathlib.Tactic.Linarith
 /-!
-# Bridge: the placeholder `Spec.Ieee.roundNE64` is `Spec.Ieee32.roundBits b64`
+# `Spec.Ieee`'s bit-pattern operations in terms of the format-generic `roundBits` / `magOfBits`
 
-`Spec/Ieee.lean` of this branch is a placeholder (`ilog2q`-based); C07's proofs are stated against the
-format-generic `Spec.Ieee32.roundMag` (verbatim the generic core of the C08 branch). This file proves that
-the two agree on every input with a positive denominator, and relates `F64.toRat` to `magOfBits`.
-After the merge with C08 the first statement becomes `rfl`-like and this file shrinks accordingly.
+C07's proofs are stated against the format-generic `roundMag`/`roundBits` of `Spec.Ieee`. This file collects
+the small facts that connect them to the `UInt64`/`UInt32` wrappers (`roundNE64`, `F64.neg`, `F64.mag`, …) on
+positive finite patterns. (Before the merge with C08 this file proved an `ilog2q`-based placeholder `roundNE64`
+equal to `roundBits b64`; with C08's `Spec.Ieee` that statement is the definition.)
 -/
 namespace SJ.Proofs.LexBridge
-open SJ.Spec.Ieee32 SJ.Proofs.LexIeee
+open SJ.Spec.Ieee SJ.Proofs.Ieee
 
 theorem pow_pos' (n : Nat) : 0 < 2 ^ n := Nat.pos_of_ne_zero (by simp)
 
-/-- `2^e ≤ n/d` on naturals -/
-def Pow2Le (e : Int) (n d : Nat) : Prop :=
-  if e ≥ 0 then d * 2 ^ e.toNat ≤ n else d ≤ n * 2 ^ (-e).toNat
+/-- `roundNE64` is `roundBits b64` wrapped in `UInt64` (definition) -/
+theorem roundNE64_bridge (neg : Bool) (n d : Nat) :
+    roundNE64 neg n d = (roundBits b64 neg n d).map UInt64.ofNat := rfl
 
-theorem pow2le_mono (e1 e2 : Int) (n d : Nat) (h : e1 ≤ e2) (h2 : Pow2Le e2 n d) : Pow2Le e1 n d := by
-  unfold Pow2Le at *
-  by_cases c2 : e2 ≥ 0
-  · rw [if_pos c2] at h2
-    by_cases c1 : e1 ≥ 0
-    · rw [if_pos c1]
-      have : 2 ^ e1.toNat ≤ 2 ^ e2.toNat := Nat.pow_le_pow_right (by decide) (by omega)
-      calc d * 2 ^ e1.toNat ≤ d * 2 ^ e2.toNat := Nat.mul_le_mul_left _ this
-        _ ≤ n := h2
-    · rw [if_neg c1]
-      have h1 : d * 1 ≤ d * 2 ^ e2.toNat := Nat.mul_le_mul_left _ (pow_pos' _)
-      have h3 : n * 1 ≤ n * 2 ^ (-e1).toNat := Nat.mul_le_mul_left _ (pow_pos' _)
-      omega
-  · rw [if_neg c2] at h2
-    have c1 : ¬ e1 ≥ 0 := by omega
-    rw [if_neg c1]
-    have : 2 ^ (-e2).toNat ≤ 2 ^ (-e1).toNat := Nat.pow_le_pow_right (by decide) (by omega)
-    calc d ≤ n * 2 ^ (-e2).toNat := h2
-      _ ≤ n * 2 ^ (-e1).toNat := Nat.mul_le_mul_left _ this
+theorem roundNE32_bridge (neg : Bool) (n d : Nat) :
+    roundNE32 neg n d = (roundBits b32 neg n d).map UInt32.ofNat := rfl
 
-/-- the placeholder's `ilog2q` is the floor of `log2 (n/d)` -/
-theorem ilog2q_spec (n d : Nat) (hn : 0 < n) (hd : 0 < d) :
-    Pow2Le (SJ.Spec.Ieee.ilog2q n d) n d ∧ ¬ Pow2Le (SJ.Spec.Ieee.ilog2q n d + 1) n d := by
-  have hn0 : n ≠ 0 := by omega
-  have hd0 : d ≠ 0 := by omega
-  have n1 := Nat.log2_self_le hn0
-  have n2 := @Nat.lt_log2_self n
-  have d1 := Nat.log2_self_le hd0
-  have d2 := @Nat.lt_log2_self d
-  -- 2^(e0-1) < n/d < 2^(e0+1) with e0 = log2 n - log2 d
-  generalize hln : n.log2 = ln at *
-  generalize hld : d.log2 = ld at *
-  have hlow : Pow2Le ((ln : Int) - ld - 1) n d := by
-    unfold Pow2Le
-    by_cases c : (ln : Int) - ld - 1 ≥ 0
-    · rw [if_pos c]
-      obtain ⟨t, ht⟩ : ∃ t : Nat, ((ln : Int) - ld - 1).toNat = t ∧ ld + 1 + t = ln := ⟨_, rfl, by omega⟩
-      rw [ht.1]
-      calc d * 2 ^ t ≤ 2 ^ (ld + 1) * 2 ^ t := Nat.mul_le_mul_right _ (Nat.le_of_lt d2)
-        _ = 2 ^ ln := by rw [← Nat.pow_add, ht.2]
-        _ ≤ n := n1
-    · rw [if_neg c]
-      obtain ⟨t, ht⟩ : ∃ t : Nat, (-((ln : Int) - ld - 1)).toNat = t ∧ ln + t = ld + 1 := ⟨_, rfl, by omega⟩
-      rw [ht.1]
-      calc d ≤ 2 ^ (ld + 1) := Nat.le_of_lt d2
-        _ = 2 ^ ln * 2 ^ t := by rw [← Nat.pow_add, ht.2]
-        _ ≤ n * 2 ^ t := Nat.mul_le_mul_right _ n1
-  have hhigh : ¬ Pow2Le ((ln : Int) - ld + 1) n d := by
-    unfold Pow2Le
-    by_cases c : (ln : Int) - ld + 1 ≥ 0
-    · rw [if_pos c]
-      obtain ⟨t, ht⟩ : ∃ t : Nat, ((ln : Int) - ld + 1).toNat = t ∧ ld + t = ln + 1 := ⟨_, rfl, by omega⟩
-      rw [ht.1]
-      have : n < d * 2 ^ t := by
-        calc n < 2 ^ (ln + 1) := n2
-          _ = 2 ^ ld * 2 ^ t := by rw [← Nat.pow_add, ht.2]
-          _ ≤ d * 2 ^ t := Nat.mul_le_mul_right _ d1
-      omega
-    · rw [if_neg c]
-      obtain ⟨t, ht⟩ : ∃ t : Nat, (-((ln : Int) - ld + 1)).toNat = t ∧ ln + 1 + t = ld := ⟨_, rfl, by omega⟩
-      rw [ht.1]
-      have : n * 2 ^ t < d := by
-        calc n * 2 ^ t < 2 ^ (ln + 1) * 2 ^ t := Nat.mul_lt_mul_of_pos_right n2 (pow_pos' _)
-          _ = 2 ^ ld := by rw [← Nat.pow_add, ht.2]
-          _ ≤ d := d1
-      omega
-  unfold SJ.Spec.Ieee.ilog2q
-  simp only [hln, hld]
-  have hge : ∀ e : Int, (if e ≥ 0 then decide (n ≥ d * 2 ^ e.toNat) else decide (n * 2 ^ (-e).toNat ≥ d)) = true ↔ Pow2Le e n d := by
-    intro e; unfold Pow2Le
-    by_cases c : e ≥ 0 <;> simp [c]
-  by_cases hg : (if (ln : Int) - ld ≥ 0 then decide (n ≥ d * 2 ^ ((ln : Int) - ld).toNat) else decide (n * 2 ^ (-((ln : Int) - ld)).toNat ≥ d)) = true
-  · rw [if_pos hg]
-    exact ⟨(hge _).1 hg, hhigh⟩
-  · rw [if_neg hg]
-    refine ⟨hlow, ?_⟩
-    have e : (ln : Int) - ld - 1 + 1 = (ln : Int) - ld := by omega
-    rw [e]
-    intro hp
-    exact hg ((hge _).2 hp)
+theorem infBits64 : b64.infBits = 0x7ff0000000000000 := by decide
+theorem infBits32 : b32.infBits = 0x7f800000 := by decide
 
-theorem rne_same (a b : Nat) : SJ.Spec.Ieee.rne a b = rne a b := by
-  unfold SJ.Spec.Ieee.rne rne
-  simp only [gt_iff_lt, beq_iff_eq]
+/-- a positive finite pattern as `UInt64`: its fields -/
+theorem pos64 (a : Nat) (ha : a < b64.infBits) :
+    (UInt64.ofNat a).toNat = a ∧ F64.sign (UInt64.ofNat a) = false ∧ F64.absBits (UInt64.ofNat a) = a ∧
+    F64.mag (UInt64.ofNat a) = magOfBits b64 a ∧ F64.isNaN (UInt64.ofNat a) = false ∧
+    F64.isInf (UInt64.ofNat a) = false := by
+  have hinf := infBits64
+  have h1 : (UInt64.ofNat a).toNat = a := by rw [UInt64.toNat_ofNat']; exact Nat.mod_eq_of_lt (by omega)
+  have h2 : F64.absBits (UInt64.ofNat a) = a := by unfold F64.absBits; rw [h1]; exact Nat.mod_eq_of_lt (by omega)
+  have hE : a / 2 ^ 52 % 2 ^ 11 ≠ 2047 := by
+    have : a / 2 ^ 52 < 2047 := by rw [Nat.div_lt_iff_lt_mul (by norm_num)]; omega
+    omega
+  refine ⟨h1, ?_, h2, ?_, ?_, ?_⟩
+  · unfold F64.sign; rw [h1, Nat.div_eq_of_lt (by omega)]; rfl
+  · unfold F64.mag; rw [h2]
+  · unfold F64.isNaN F64.expField; rw [h1]
+    have : (a / 2 ^ 52 % 2 ^ 11 == 2047) = false := by simpa using hE
+    rw [this]; rfl
+  · unfold F64.isInf F64.expField; rw [h1]
+    have : (a / 2 ^ 52 % 2 ^ 11 == 2047) = false := by simpa using hE
+    rw [this]; rfl
 
-theorem sign_or (neg : Bool) (r : Nat) (hr : r < 2 ^ 63) :
-    SJ.Spec.Ieee.signBit neg ||| UInt64.ofNat r = UInt64.ofNat (if neg then b64.signBit + r else r) := by
-  apply UInt64.toNat_inj.1
-  rw [UInt64.toNat_or]
-  cases neg
-  · simp [SJ.Spec.Ieee.signBit]
-  · simp only [SJ.Spec.Ieee.signBit, if_true]
-    have h1 : (0x8000000000000000 : UInt64).toNat = 2 ^ 63 := by decide
-    have h2 : (UInt64.ofNat r).toNat = r := by
-      rw [UInt64.toNat_ofNat']; exact Nat.mod_eq_of_lt (by omega)
-    have h3 : b64.signBit = 2 ^ 63 := by decide
-    rw [h1, h2, h3, UInt64.toNat_ofNat', Nat.mod_eq_of_lt (by omega)]
-    have := Nat.two_pow_add_eq_or_of_lt hr 1
-    simp only [Nat.mul_one] at this
-    exact this.symm
-
-/-- bounds on `n·2^1074 / d` from the binary order of magnitude of `n/d` -/
-theorem scaled_bounds (e : Int) (n d : Nat) (hd : 0 < d) (h1 : Pow2Le e n d) (h2 : ¬ Pow2Le (e + 1) n d) :
-    (0 ≤ e + 1074 → 2 ^ (e + 1074).toNat ≤ n * 2 ^ 1074 / d) ∧
-    (0 ≤ e + 1075 → n * 2 ^ 1074 / d < 2 ^ (e + 1075).toNat) ∧
-    (e + 1075 ≤ 0 → n * 2 ^ 1074 / d = 0) := by
-  unfold Pow2Le at h1 h2
-  refine ⟨fun he => ?_, fun he => ?_, fun he => ?_⟩
-  · rw [Nat.le_div_iff_mul_le hd]
-    by_cases c : e ≥ 0
-    · rw [if_pos c] at h1
-      have : (e + 1074).toNat = e.toNat + 1074 := by omega
-      rw [this, Nat.pow_add]
-      calc 2 ^ e.toNat * 2 ^ 1074 * d = d * 2 ^ e.toNat * 2 ^ 1074 := by ring
-        _ ≤ n * 2 ^ 1074 := Nat.mul_le_mul_right _ h1
-    · rw [if_neg c] at h1
-      have : (e + 1074).toNat + (-e).toNat = 1074 := by omega
-      calc 2 ^ (e + 1074).toNat * d ≤ 2 ^ (e + 1074).toNat * (n * 2 ^ (-e).toNat) := Nat.mul_le_mul_left _ h1
-        _ = n * 2 ^ ((e + 1074).toNat + (-e).toNat) := by rw [Nat.pow_add]; ring
-        _ = n * 2 ^ 1074 := by rw [this]
-  · rw [Nat.div_lt_iff_lt_mul hd]
-    by_cases c : e + 1 ≥ 0
-    · rw [if_pos c] at h2
-      have : (e + 1075).toNat = (e + 1).toNat + 1074 := by omega
-      rw [this, Nat.pow_add]
-      have h3 : n < d * 2 ^ (e + 1).toNat := by omega
-      calc n * 2 ^ 1074 < d * 2 ^ (e + 1).toNat * 2 ^ 1074 := Nat.mul_lt_mul_of_pos_right h3 (pow_pos' _)
-        _ = 2 ^ (e + 1).toNat * 2 ^ 1074 * d := by ring
-    · rw [if_neg c] at h2
-      have h3 : n * 2 ^ (-(e + 1)).toNat < d := by omega
-      have : (e + 1075).toNat + (-(e + 1)).toNat = 1074 := by omega
-      calc n * 2 ^ 1074 = n * 2 ^ (-(e + 1)).toNat * 2 ^ (e + 1075).toNat := by
-            rw [← this, Nat.pow_add]; ring
-        _ < d * 2 ^ (e + 1075).toNat := Nat.mul_lt_mul_of_pos_right h3 (pow_pos' _)
-        _ = 2 ^ (e + 1075).toNat * d := by ring
-  · have c : ¬ (e + 1 ≥ 0) := by omega
-    rw [if_neg c] at h2
-    have h3 : n * 2 ^ (-(e + 1)).toNat < d := by omega
-    apply Nat.div_eq_of_lt
-    have : 2 ^ 1074 ≤ 2 ^ (-(e + 1)).toNat := Nat.pow_le_pow_right (by decide) (by omega)
-    calc n * 2 ^ 1074 ≤ n * 2 ^ (-(e + 1)).toNat := Nat.mul_le_mul_left _ this
-      _ < d := h3
-
-theorem log2_eq_of {x n : Nat} (h1 : 2 ^ n ≤ x) (h2 : x < 2 ^ (n + 1)) : x.log2 = n := by
-  have hx : x ≠ 0 := by have := pow_pos' n; omega
-  exact (Nat.log2_eq_iff hx).2 ⟨h1, h2⟩
-
-/-- **bridge.** The placeholder `roundNE64` agrees with the format-generic `roundBits b64` -/
-theorem roundNE64_bridge (neg : Bool) (n d : Nat) (hd : 0 < d) :
-    SJ.Spec.Ieee.roundNE64 neg n d = (roundBits b64 neg n d).map UInt64.ofNat := by
-  have hq : b64.qexp = 1074 := by decide
-  have hmb : b64.mbits = 52 := rfl
-  have hinf : b64.infBits = 2047 * 2 ^ 52 := by decide
-  unfold SJ.Spec.Ieee.roundNE64 roundBits
-  rw [hq]
-  by_cases hn0 : n = 0
-  · subst hn0
-    have hd0 : (d == 0) = false := by simp; omega
-    have : roundMag b64 (0 * 2 ^ 1074) d = 0 := by
-      rw [roundMag_eq]; unfold kOf rne; simp
-    simp only [beq_self_eq_true, Bool.true_or, if_true, this]
-    rw [if_pos (by rw [hinf]; exact Nat.mul_pos (by decide) (pow_pos' _))]
-    simp only [Option.map_some]
-    refine congrArg some ?_
-    rw [← sign_or neg 0 (by norm_num)]
-    cases neg <;> decide
-  · have hnpos : 0 < n := Nat.pos_of_ne_zero hn0
-    have hnb : (n == 0) = false := by simpa using hn0
-    have hdb : (d == 0) = false := by simp; omega
-    simp only [hnb, hdb, Bool.or_self, Bool.false_eq_true, if_false]
-    obtain ⟨hp1, hp2⟩ := ilog2q_spec n d hnpos hd
-    generalize SJ.Spec.Ieee.ilog2q n d = e at *
-    obtain ⟨sb1, sb2, sb3⟩ := scaled_bounds e n d hd hp1 hp2
-    -- the clamped exponent and the spacing exponent
-    obtain ⟨e', he'⟩ : ∃ e' : Int, e' = if e < -1022 then -1022 else e := ⟨_, rfl⟩
-    rw [← he']
-    obtain ⟨k, hk⟩ : ∃ k : Nat, (k : Int) = e' + 1022 := ⟨(e' + 1022).toNat, by rw [he']; split <;> omega⟩
-    have hkof : kOf b64 (n * 2 ^ 1074) d = k := by
-      unfold kOf
-      rw [hmb]
-      by_cases c1 : e + 1075 ≤ 0
-      · rw [sb3 c1]
-        have : e' = -1022 := by rw [he']; rw [if_pos (by omega)]
-        simp [Nat.log2]; omega
-      · have hlog : (n * 2 ^ 1074 / d).log2 = (e + 1074).toNat ∨ (e + 1074 < 0 ∧ n * 2 ^ 1074 / d < 1) := by
-          by_cases c2 : 0 ≤ e + 1074
-          · left
-            apply log2_eq_of (sb1 c2)
-            have := sb2 (by omega)
-            have e2 : (e + 1075).toNat = (e + 1074).toNat + 1 := by omega
-            rwa [e2] at this
-          · right
-            refine ⟨by omega, ?_⟩
-            have := sb2 (by omega)
-            have e2 : (e + 1075).toNat = 0 := by omega
-            rwa [e2] at this
-        rcases hlog with hl | ⟨hl1, hl2⟩
-        · rw [hl]
-          rw [he'] at hk
-          split at hk <;> omega
-        · have : n * 2 ^ 1074 / d = 0 := by omega
-          rw [this]
-          rw [he'] at hk
-          simp [Nat.log2]
-          split at hk <;> omega
-    -- the significand
-    have hsig : (if e' - 52 ≥ 0 then SJ.Spec.Ieee.rne n (d * 2 ^ (e' - 52).toNat)
-        else SJ.Spec.Ieee.rne (n * 2 ^ (-(e' - 52)).toNat) d) = rne (n * 2 ^ 1074) (d * 2 ^ k) := by
-      by_cases c : e' - 52 ≥ 0
-      · rw [if_pos c, rne_same]
-        apply rne_congr _ _ _ _ (Nat.mul_pos hd (pow_pos' _)) (Nat.mul_pos hd (pow_pos' _))
-        have : k = (e' - 52).toNat + 1074 := by omega
-        rw [this, Nat.pow_add]; ring
-      · rw [if_neg c, rne_same]
-        apply rne_congr _ _ _ _ hd (Nat.mul_pos hd (pow_pos' _))
-        have : (-(e' - 52)).toNat + k = 1074 := by omega
-        calc n * 2 ^ (-(e' - 52)).toNat * (d * 2 ^ k) = n * 2 ^ ((-(e' - 52)).toNat + k) * d := by
-              rw [Nat.pow_add]; ring
-          _ = n * 2 ^ 1074 * d := by rw [this]
-    rw [hsig, roundMag_eq, hkof, hmb]
-    obtain ⟨hm1, hm2⟩ := sig_bounds b64 (n * 2 ^ 1074) d hd
-    rw [hkof, hmb] at hm1 hm2
-    generalize rne (n * 2 ^ 1074) (d * 2 ^ k) = m at *
-    rw [hinf]
-    have hP : (2 : Nat) ^ 53 = 2 * 2 ^ 52 := by norm_num
-    by_cases hc : m = 2 ^ 53
-    · -- carry into the next binade
-      have hb : (m == 2 ^ 53) = true := by simpa using hc
-      simp only [hb, if_true]
-      by_cases hov : e' + 1 > 1023
-      · rw [if_pos hov, if_neg (by rw [hc, hP]; have : 2045 ≤ k := by omega
-                                   have := Nat.mul_le_mul_right (2 ^ 52) this; omega)]
-        rfl
-      · rw [if_neg hov, if_neg (by norm_num)]
-        have hlt : k * 2 ^ 52 + m < 2047 * 2 ^ 52 := by
-          rw [hc, hP]; have : k + 2 ≤ 2046 := by omega
-          have := Nat.mul_le_mul_right (2 ^ 52) this; omega
-        rw [if_pos hlt]
-        simp only [Option.map_some]
-        refine congrArg some ?_
-        have e1 : ((e' + 1 + 1023).toNat * 2 ^ 52 + (2 ^ 52 - 2 ^ 52)) = k * 2 ^ 52 + m := by
-          have : (e' + 1 + 1023).toNat = k + 2 := by omega
-          rw [this, hc, hP]; ring
-        rw [e1]
-        exact sign_or neg _ (by omega)
-    · have hb : (m == 2 ^ 53) = false := by simpa using hc
-      simp only [hb, Bool.false_eq_true, if_false]
-      by_cases hsub : m < 2 ^ 52
-      · -- subnormal: k = 0
-        have hk0 : k = 0 := by
-          by_contra hk0
-          have := hm2 (by omega)
-          omega
-        have : ¬ (e' > 1023) := by omega
-        rw [if_neg this, if_pos hsub, hk0, Nat.zero_mul, Nat.zero_add, if_pos (by omega)]
-        simp only [Option.map_some]
-        refine congrArg some ?_
-        exact sign_or neg _ (by omega)
-      · have hm3 : m < 2 ^ 53 := by omega
-        by_cases hov : e' > 1023
-        · rw [if_pos hov, if_neg (by have : 2046 ≤ k := by omega
-                                     have := Nat.mul_le_mul_right (2 ^ 52) this; omega)]
-          rfl
-        · rw [if_neg hov, if_neg hsub]
-          have hlt : k * 2 ^ 52 + m < 2047 * 2 ^ 52 := by
-            have : k + 1 ≤ 2046 := by omega
-            have := Nat.mul_le_mul_right (2 ^ 52) this; omega
-          rw [if_pos hlt]
-          simp only [Option.map_some]
-          refine congrArg some ?_
-          have e1 : ((e' + 1023).toNat * 2 ^ 52 + (m - 2 ^ 52)) = k * 2 ^ 52 + m := by
-            have : (e' + 1023).toNat = k + 1 := by omega
-            rw [this, Nat.succ_mul]; omega
-          rw [e1]
-          exact sign_or neg _ (by omega)
+theorem pos32 (a : Nat) (ha : a < b32.infBits) :
+    (UInt32.ofNat a).toNat = a ∧ F32.sign (UInt32.ofNat a) = false ∧ F32.absBits (UInt32.ofNat a) = a ∧
+    F32.mag (UInt32.ofNat a) = magOfBits b32 a ∧ F32.isInf (UInt32.ofNat a) = false := by
+  have hinf := infBits32
+  have h1 : (UInt32.ofNat a).toNat = a := by rw [UInt32.toNat_ofNat']; exact Nat.mod_eq_of_lt (by omega)
+  have h2 : F32.absBits (UInt32.ofNat a) = a := by unfold F32.absBits; rw [h1]; exact Nat.mod_eq_of_lt (by omega)
+  have hE : a / 2 ^ 23 % 2 ^ 8 ≠ 255 := by
+    have : a / 2 ^ 23 < 255 := by rw [Nat.div_lt_iff_lt_mul (by norm_num)]; omega
+    omega
+  refine ⟨h1, ?_, h2, ?_, ?_⟩
+  · unfold F32.sign; rw [h1, Nat.div_eq_of_lt (by omega)]; rfl
+  · unfold F32.mag; rw [h2]
+  · unfold F32.isInf F32.expField; rw [h1]
+    have : (a / 2 ^ 23 % 2 ^ 8 == 255) = false := by simpa using hE
+    rw [this]; rfl
 
 end SJ.Proofs.LexBridge
